@@ -341,5 +341,6 @@ func (w *World) BaseEnv() map[string]string {
 		"HOME": w.Home,
 		"LOG":  w.Log,
 		"CTL":  w.Ctl,
+		"PROJ": w.Proj,
 	}
 }
